@@ -8,7 +8,7 @@ MANIFEST = dict(
     engine="nsim+e2e", category="fault_enumeration",
     technique="runtime monitoring + fault injection: enumerated fault plans x exhaustive completion orders on small graphs; trace "
               "monitors, independent log parsers, retry invocation from each explored end state",
-    text="For small graphs, fault plans (1-3 failing statements, exit codes {1,2,3,127,255}, outputs touched or untouched) are combined "
+    text="(Round 10: the missing source may be needed only by a validation (of a validation) of what was asked for.) For small graphs, fault plans (1-3 failing statements, exit codes {1,2,3,127,255}, outputs touched or untouched) are combined "
          "with -k in {1,2,3,0}, -j in {1,2,3,8} and ALL completion orders (cap per graph). Monitors: no statement with a failed "
          "(transitive, discovered or dyndep) prerequisite ever STARTs; the exit status is non-zero and is the status of a failed "
          "command; nothing starts once k failures were seen, while commands already running are waited for (never killed) and "
